@@ -531,6 +531,10 @@ func TestEdges(t *testing.T) {
 			rec.Label("excluded:unknown")
 			continue
 		}
+		if wideIntUnderFloat(c.kind, c.v) {
+			rec.Label("excluded:int-value-over-512-bits-under-float-kind")
+			continue
+		}
 		if rec.Known(fNearLimit) && nearLimit(c.kind, c.v) {
 			rec.Excluded(fNearLimit)
 			continue
@@ -594,7 +598,7 @@ func TestGoTypesConstants(t *testing.T) {
 // -test.fuzz; in a normal run it only replays its seed corpus.
 func FuzzBytes(f *testing.F) {
 	if rec.ReplayOnly() {
-		return
+		f.Skip("replay only")
 	}
 	for _, seed := range [][]byte{{}, {2, 0xff, 0xff, 0xff, 0xff, 0xff, 0xff, 0xff, 0xff, 0xff}, {4, 0, 1, 2, 3, 4, 5, 6, 7, 8, 9}, {4, 2, 0x10, 0x27, 1, 9, 9, 9},
 		{0x84, 3, 0xf0, 0xd8, 2, 1, 2, 3}, {5, 4, 0xff, 0x0f, 0xff}, {6, 0, 2, 1, 2, 3, 4, 5, 6, 7, 8, 9, 10, 11, 12}, {1, ':', 'n', 'i', 'l', 0, 0xff}, {3, 0x10, 0xff, 0xff}} {
@@ -609,7 +613,7 @@ func FuzzBytes(f *testing.F) {
 		if !inDomain(kind, v) {
 			return
 		}
-		if rec.Known(fNearLimit) && nearLimit(kind, v) {
+		if wideIntUnderFloat(kind, v) || rec.Known(fNearLimit) && nearLimit(kind, v) {
 			return
 		}
 		if class, err := checkCase(kind, v); err != nil {
